@@ -884,12 +884,32 @@ pub enum Primary {
     Stdout(u8),
 }
 
+/// how a format is configured: by naming the function, through `AdaptiveFormat` (the child's
+/// stdout/stderr are pipes, so the uncoloured member of the pair must be chosen), or not at all
+/// (documented defaults: `default_format` for files, `AdaptiveFormat::Default` for the streams)
+#[derive(Clone, Copy, Debug, PartialEq, Eq)]
+pub enum How {
+    Explicit,
+    Adaptive,
+    Unset,
+}
+
+fn how_tag(h: How) -> &'static str {
+    match h {
+        How::Explicit => "",
+        How::Adaptive => "(adaptive)",
+        How::Unset => "(unset)",
+    }
+}
 #[derive(Debug, Clone)]
 pub struct ChildScenario {
     pub primary: Primary,
     pub f_file: F,
     pub f_err: F,
     pub f_out: F,
+    pub how_file: How,
+    pub how_err: How,
+    pub how_out: How,
     pub crlf: bool,
     pub recursion: bool,
     pub t0: i64,
@@ -952,11 +972,27 @@ pub fn gen_child_scenario(rng: &mut Rng, thorough: bool) -> ChildScenario {
             dup_out: rng.below(7) as u8,
         },
     };
+    let mut pick_how = |rng: &mut Rng, stream: bool| -> (F, How) {
+        match rng.below(6) {
+            0 if stream => (
+                *rng.pick(&[F::Default, F::Opt, F::Detailed, F::WithThread]),
+                How::Adaptive,
+            ),
+            1 => (F::Default, How::Unset),
+            _ => (*rng.pick(&ALL_F), How::Explicit),
+        }
+    };
+    let (f_file, how_file) = pick_how(rng, false);
+    let (f_err, how_err) = pick_how(rng, true);
+    let (f_out, how_out) = pick_how(rng, true);
     ChildScenario {
         primary,
-        f_file: *rng.pick(&ALL_F),
-        f_err: *rng.pick(&ALL_F),
-        f_out: *rng.pick(&ALL_F),
+        f_file,
+        f_err,
+        f_out,
+        how_file,
+        how_err,
+        how_out,
         crlf: rng.chance(1, 3),
         recursion,
         t0: flw::base_time_ns(rng),
@@ -1000,10 +1036,26 @@ pub fn child_main(a: &ChildArgs) -> i32 {
         .basename("c20")
         .suppress_timestamp();
     let mut lg = Logger::with(LogSpecification::trace())
-        .error_channel(flexi_logger::ErrorChannel::File(a.dir.join("errchan.txt")))
-        .format_for_files(sc.f_file.func())
-        .format_for_stderr(sc.f_err.func())
-        .format_for_stdout(sc.f_out.func());
+        .error_channel(flexi_logger::ErrorChannel::File(a.dir.join("errchan.txt")));
+    let adaptive = |f: F| match f {
+        F::Opt => flexi_logger::AdaptiveFormat::Opt,
+        F::Detailed => flexi_logger::AdaptiveFormat::Detailed,
+        F::WithThread => flexi_logger::AdaptiveFormat::WithThread,
+        _ => flexi_logger::AdaptiveFormat::Default,
+    };
+    if sc.how_file == How::Explicit {
+        lg = lg.format_for_files(sc.f_file.func());
+    }
+    lg = match sc.how_err {
+        How::Explicit => lg.format_for_stderr(sc.f_err.func()),
+        How::Adaptive => lg.adaptive_format_for_stderr(adaptive(sc.f_err)),
+        How::Unset => lg,
+    };
+    lg = match sc.how_out {
+        How::Explicit => lg.format_for_stdout(sc.f_out.func()),
+        How::Adaptive => lg.adaptive_format_for_stdout(adaptive(sc.f_out)),
+        How::Unset => lg,
+    };
     lg = match &sc.primary {
         Primary::FileWithDups { dup_err, dup_out } => lg
             .log_to_file(fs)
@@ -1075,11 +1127,14 @@ pub fn c20_child_case(ctx: &mut CaseCtx) -> CaseResult {
         Primary::Stdout(m) => ("stdout", std_mode_label(*m)),
     };
     let mut res = CaseResult::new(format!(
-        "child|{plabel}|{mode_label}|{}|file={:?}|err={:?}|out={:?}",
+        "child|{plabel}|{mode_label}|{}|file={:?}{}|err={:?}{}|out={:?}{}",
         if sc.recursion { "recursion" } else { "-" },
         sc.f_file,
+        how_tag(sc.how_file),
         sc.f_err,
-        sc.f_out
+        how_tag(sc.how_err),
+        sc.f_out,
+        how_tag(sc.how_out)
     ));
     let (out, hang_confirmed) = match child::spawn_confirm_hang(&child::Spawn {
         ctx,
